@@ -146,7 +146,7 @@ fn main() {
             "All lines with both end points in [-R,R]^2 (exhaustive: all octants, horizontal, vertical, diagonal, zero length) x stroke widths 1..=W, at three positions (origin-centred, shifted negative, shifted far positive); \
              plus random long lines (|delta| <= 200, widths <= 20). Non-trivial = start != end; distinct = distinct (start, end).",
         );
-        let (r, wmax) = run.tier((10i32, 10u32), (14i32, 14u32));
+        let (r, wmax) = run.tier((10i32, 10u32), (18i32, 18u32));
         let span = (2 * r + 1) as u64;
         let n = span * span;
         let widths: Vec<u32> = (1..=wmax).collect();
@@ -162,7 +162,7 @@ fn main() {
             };
             one(ctx, a + shift, b + shift, &widths);
         });
-        let nr = run.tier(60_000u64, 1_500_000u64);
+        let nr = run.tier(60_000u64, 20_000_000u64);
         run.generate("random-long", nr, false, 0.6, |ctx, _idx, rng| {
             let a = Point::new(rng.i32r(-300, 300), rng.i32r(-300, 300));
             let b = match rng.below(6) {
